@@ -139,6 +139,15 @@ CLAIMS = {
             "reproduced on the real code and fixed.",
             TRUST + "Interleavings are exhaustive in the model and replayed at the code's own yield points (select/time/read); "
             "preemption inside CPython bytecode is not enumerated.", "5/C08"),
+    "C12": ("TLA+ resource model of the six context managers (Ctx.tla: stack of frames with entry snapshots, Raise unwinding): "
+            "TLC model-checks all nestings/options/crash points, generates scenarios replayed on real ptys; CtxTrace.tla + "
+            "Term.tla validate the recorded snapshots and terminal tokens",
+            "Every nesting of <=3 contexts, option combination and crash point of the bounded model plus scenario families "
+            "(repeated and nested Inputs, SIGINT from another thread during a blocked request, non-main thread, initial "
+            "O_NONBLOCK) run on real ptys; after each step termios attributes, O_NONBLOCK, SIGINT handler, wake-up fd and "
+            "open-fd count are recorded and TLC checks Restored at every exit, plus cursor/alternate-screen state via the "
+            "reference terminal.",
+            TRUST + "At most one window context at a time; an interrupt landing inside __enter__/__exit__ is out of scope.", "5/C12"),
 }
 
 NOT_BUILT = "check not built yet at this commit (planned with the same TLA+ technique, see DESIGN.md section 5)"
